@@ -153,18 +153,21 @@ func (c *Calcium) withNodesLocked(ctx context.Context, nodeFilter *types.NodeFil
 		return err
 	}
 
+	// lock in ascending key order, each key once
+	keys := utils.Map(ns, genKey)
+	sort.Strings(keys)
+	keys = keys[:utils.Unique(keys, func(i int) string { return keys[i] })]
 	var lock lock.DistributedLock
-	for _, n := range ns {
-		key := genKey(n)
-		if _, ok := locks[key]; !ok {
-			lock, ctx, err = c.doLock(ctx, key, c.config.LockTimeout)
-			if err != nil {
-				return err
-			}
-			logger.Debugf(ctx, "key %s locked", key)
-			locks[key] = lock
-			lockKeys = append(lockKeys, key)
+	for _, key := range keys {
+		lock, ctx, err = c.doLock(ctx, key, c.config.LockTimeout)
+		if err != nil {
+			return err
 		}
+		logger.Debugf(ctx, "key %s locked", key)
+		locks[key] = lock
+		lockKeys = append(lockKeys, key)
+	}
+	for _, n := range ns {
 		nodes[n.Name] = n
 	}
 	return f(ctx, nodes)
